@@ -124,7 +124,10 @@ func buildGin(cs *caseState, sp godi.Provider) http.Handler {
 	d := g.Group("/d")
 	d.Use(godigin.ScopeMiddleware(sp, so2...))
 	d.GET("/"+RouteCtrl, godigin.Handle(func(k *Ctrl, c *gin.Context) { c.Status(http.StatusOK) }, godigin.WithPanicRecovery(!o.Recovery)))
-	s.GET("/"+RouteCtrl, route(hCtrl))
+	hT := func() gin.HandlerFunc {
+		return godigin.Handle(func(k *TCtrl, c *gin.Context) { look(c).onChain(k) }, godigin.WithPanicRecovery(o.Recovery))
+	}
+	s.GET("/"+RouteCtrl, hT(), hT(), route(hCtrl))
 	s.GET("/"+RoutePlain, route(nil))
 	s.GET("/"+RouteUnreg, route(hUnreg))
 	s.GET("/"+RouteFailCtor, route(hFail))
